@@ -209,11 +209,15 @@ class Check:
 
     # ---- circuits
 
-    def circuit_case(self, exact):
+    def circuit_case(self, exact, given=None, twins=0.0, unitary=False, stream="circuit"):
         rep = self.rep
-        gen = QGen(random.Random(self.rng.getrandbits(64)), exact=exact)
-        n_in, layers = gen.circuit()
-        case = dict(circuit=show_circuit(n_in, layers), exact=exact)
+        if given is None:
+            gen = QGen(random.Random(self.rng.getrandbits(64)), exact=exact)
+            n_in, layers = gen.circuit(twins=twins, unitary=unitary)
+        else:
+            n_in, layers = given
+        rep.count("stream:" + stream)
+        case = dict(circuit=show_circuit(n_in, layers), exact=exact, stream=stream)
         c = build_circuit(n_in, layers)
         n_out = len(c.cod)
         real = eval_io(c)
@@ -258,6 +262,27 @@ class Check:
                 if sig[1]:
                     rep.fail("circuit_eval_with_flag_blind_controlled", case,
                              "equals the ordered product only with Controlled(U†) read as Controlled(U)")
+        # oracle: c >> c.dagger() evaluates to eval(c) . eval(c)^H ("ordered product" + "dagger = conjugate
+        # transpose"), which is the identity for a circuit of gates only.  Here every box is directly
+        # followed, at the seam, by its own dagger - boxes that discopy's `==` may confuse.
+        echo_layers = layers + [(l, ("D", g), r) for l, g, r in reversed(layers)]
+        real_echo = eval_io(c >> c.dagger())
+        rep.count("echo_checked")
+        if exact:
+            m3 = self.drv.ask("ceval %d %s" % (n_in, tok_circuit(echo_layers)))
+            r3 = rec(real_echo, 2 ** n_in, 2 ** n_in)
+            rep.count("exact_model_comparisons")
+            if r3 != m3:
+                rep.disagree("ceval-echo", case, r3[:300], m3[:300])
+        self.float_cmp += 1
+        gates_only = not any(k in ("Ket", "Bra", "scalar") for k in allk)
+        if gates_only and not close(real_echo, np.eye(2 ** n_in), TOL):
+            rep.fail("circuit_then_dagger_not_identity", case,
+                     "(c >> c.dagger()).eval() is not the identity although c consists of gates only; "
+                     "max |Δ| = %.3g" % float(np.max(np.abs(real_echo - np.eye(2 ** n_in)))))
+        elif not close(real_echo, want @ want.conj().T, TOL * max(1.0, float(np.max(np.abs(want))) ** 2)):
+            rep.fail("circuit_then_dagger_not_product", case,
+                     "(c >> c.dagger()).eval() != eval(c) . eval(c)^H computed independently")
         # oracle: unitary when there is no ket / bra / scalar
         if not any(k in ("Ket", "Bra", "scalar") for k in allk):
             rep.count("unitarity_checked")
@@ -274,6 +299,42 @@ class Check:
                          "c.dagger().eval() != c.eval().dagger()")
             else:
                 rep.fail("circuit_dagger_not_adjoint", case, "c.dagger().eval() != c.eval().dagger()")
+
+    # ---- boxes that compare equal (or print equal) although they denote different matrices,
+    #      placed directly after one another
+
+    def adjacent_pairs(self, n_random):
+        rng = self.rng
+        pairs = []
+        for n in ("S", "T"):
+            a, b = ("C", ("N", n)), ("C", ("D", ("N", n)))
+            pairs += [(a, b), (b, a), (a, ("D", a)), (("D", a), a), (a, a), (b, b)]
+            pairs += [(("N", n), ("D", ("N", n))), (("D", ("N", n)), ("N", n))]
+        pairs += [(("N", "Y"), ("D", ("N", "Y"))), (("C", ("N", "Y")), ("D", ("C", ("N", "Y"))))]
+        for q in qgen.CUSTOM:
+            a = ("Q", q)
+            pairs += [(a, ("D", a)), (("D", a), a), (("D", a), ("D", a))]
+            if qgen.CUSTOM_NQ[q] == 1:
+                pairs += [(("C", a), ("C", ("D", a))), (("C", ("D", a)), ("C", a)), (("C", a), ("D", ("C", a)))]
+        for g, h in pairs:
+            d = arity(g)[0]
+            self.circuit_case(True, given=(d, [(0, g, 0), (0, h, 0)]), stream="adjacent-pair")
+            self.circuit_case(True, given=(d + 1, [(1, g, 0), (0, h, 1)]) if d == 1 else
+                              (d + 1, [(0, g, 1), (0, h, 1)]), stream="adjacent-pair")
+        # (controlled) rotations whose phases differ beyond the 3 digits that names print
+        deltas = (4e-4, -4e-4, 1e-3, 5e-5)
+        for kind in qgen.ROT1 + qgen.ROT2:
+            phases = [0.25, 0.2, 1.0, -0.75] + [round(rng.uniform(-2, 2), 3) for _ in range(n_random)]
+            for ph in phases:
+                ph2 = ph + rng.choice(deltas)
+                a, b = ("R", kind, None, ph), ("R", kind, None, ph2)
+                d = arity(a)[0]
+                self.circuit_case(False, given=(d, [(0, a, 0), (0, b, 0)]), stream="adjacent-near-phase")
+                if kind in qgen.ROT1:
+                    ca, cb = ("C", a), ("C", b)
+                    self.circuit_case(False, given=(2, [(0, ca, 0), (0, cb, 0)]), stream="adjacent-near-phase")
+                    self.circuit_case(False, given=(3, [(0, ca, 1), (1, cb, 0), (0, ("D", ca), 1)]),
+                                      stream="adjacent-near-phase")
 
     # ---- rewire
 
@@ -330,7 +391,12 @@ class Check:
 def run(tier, seed, replay=None):
     rep = Report(PROP, tier, seed)
     thorough = tier == "thorough"
-    rep.rule = ("(1) every gate of gates.GATES, their daggers, Controlled(g) for every 1-qubit g and "
+    rep.rule = ("(0) user-defined QuantumGate(name, n, array) boxes on 1-3 qubits (products of table gates, "
+                "controlled-H, Toffoli; none symmetric under qubit reversal) with and without dagger flag, "
+                "alone, controlled, and inside the random circuits; pairs of boxes that discopy's == confuses "
+                "(Controlled(g)/Controlled(g.dagger()), box/dagger, (controlled) rotations whose phases agree "
+                "to 3 digits) placed directly after one another; every circuit c also as c >> c.dagger(); "
+                "(1) every gate of gates.GATES, their daggers, Controlled(g) for every 1-qubit g and "
                 "their daggers, rotations Rx/Ry/Rz/CU1/CRz/CRx at all phases k/8 (|k| <= 16) and at "
                 "random float phases, kets/bras for all bitstrings of length <= 3 (4 thorough); "
                 "(2) random pure circuits on 0-4 wires, depth 1-8, gates at random offsets, kets/bras "
@@ -364,8 +430,14 @@ def run(tier, seed, replay=None):
         singles += [("D", g) for g in list(singles)]
         ctrl = [("C", ("N", n)) for n in qgen.NAMED1] + [("C", ("D", ("N", n))) for n in qgen.NAMED1]
         ctrl += [("D", g) for g in list(ctrl)]
+        custom = [("Q", q) for q in qgen.CUSTOM]
+        custom += [("D", g) for g in list(custom)] + [("D", ("D", ("Q", q))) for q in qgen.CUSTOM2]
+        custom += [("C", ("Q", q)) for q in qgen.CUSTOM1] + [("C", ("D", ("Q", q))) for q in qgen.CUSTOM1]
+        custom += [("D", ("C", ("Q", q))) for q in qgen.CUSTOM1]
         for g in singles + ctrl:
             chk.one_gate(g, "table")
+        for g in custom:
+            chk.one_gate(g, "user-defined")
         for kind in qgen.ROT1 + qgen.ROT2:
             for n in range(-16, 17):
                 if kind != "CU1" and n % 2:
@@ -390,7 +462,9 @@ def run(tier, seed, replay=None):
         # 2. circuits
         n_circ = 600 if not thorough else 6000
         for k in range(n_circ):
-            chk.circuit_case(exact=(k % 2 == 0))
+            chk.circuit_case(exact=(k % 2 == 0), twins=(0.4 if k % 3 == 0 else 0.0),
+                             unitary=(k % 4 >= 2), stream="circuit")
+        chk.adjacent_pairs(3 if not thorough else 25)
         # 3. rewire
         chk.rewire_cases(4 if not thorough else 5)
         rep.extra["float_oracle_comparisons"] = chk.float_cmp
